@@ -307,7 +307,8 @@ def g_reflection(ctx, rng, i):
     # agrees with mirror for points off the mirror, fixes exact points of the mirror
     for _ in range(3):
         p = gen.coords(rng, (dim,), 6, "int")
-        P = g.Point(*p.tolist())
+        # the point in an arbitrary homogeneous representative (as join/meet would return it)
+        P = g.Point(np.append(p, 1) * gen.pick(rng, [1, 1, 2, -1, -3, 0.5]))
         on = abs(np.dot(h[:-1], p) + h[-1]) < 1e-12
         img = t * P
         if on:
